@@ -44,6 +44,8 @@ type icache struct {
 	sync.RWMutex
 	expire time.Duration
 	items  map[string]item
+	// gen counts the account changes seen so far; see setIfUnchanged
+	gen uint64
 }
 
 func (i *icache) set(k string, v Account) {
@@ -52,6 +54,27 @@ func (i *icache) set(k string, v Account) {
 	i.items[k] = item{
 		exp:   time.Now().Add(i.expire),
 		value: cpy,
+	}
+	i.Unlock()
+}
+
+// generation returns the current change counter
+func (i *icache) generation() uint64 {
+	i.RLock()
+	defer i.RUnlock()
+	return i.gen
+}
+
+// setIfUnchanged caches v unless an account was updated or deleted since
+// gen was read: v was fetched before that change and may predate it
+func (i *icache) setIfUnchanged(k string, v Account, gen uint64) {
+	cpy := v
+	i.Lock()
+	if i.gen == gen {
+		i.items[k] = item{
+			exp:   time.Now().Add(i.expire),
+			value: cpy,
+		}
 	}
 	i.Unlock()
 }
@@ -69,6 +92,7 @@ func (i *icache) get(k string) (Account, bool) {
 func (i *icache) update(k string, props MutableProps) {
 	i.Lock()
 	defer i.Unlock()
+	i.gen++
 
 	item, found := i.items[k]
 	if found {
@@ -83,6 +107,7 @@ func (i *icache) update(k string, props MutableProps) {
 
 func (i *icache) Delete(k string) {
 	i.Lock()
+	i.gen++
 	delete(i.items, k)
 	i.Unlock()
 }
@@ -164,12 +189,13 @@ func (c *IAMCache) GetUserAccount(access string) (Account, error) {
 		return acct, nil
 	}
 
+	gen := c.iamcache.generation()
 	a, err := c.service.GetUserAccount(access)
 	if err != nil {
 		return Account{}, err
 	}
 
-	c.iamcache.set(access, a)
+	c.iamcache.setIfUnchanged(access, a, gen)
 	return a, nil
 }
 
